@@ -371,6 +371,9 @@ class Ctx:
     def deviation(self, sig, data, what):
         """A concrete failing input (or model/impl disagreement). `sig` is the
         classifier signature compared with known_findings matchers."""
+        hk = json.dumps(sig, sort_keys=True, default=repr)
+        self.cov.setdefault('deviation_histogram', {})
+        self.cov['deviation_histogram'][hk] = self.cov['deviation_histogram'].get(hk, 0) + 1
         for k in self.known:
             m = k['matcher']
             if all(sig.get(a) == b for a, b in m.items()):
@@ -381,8 +384,11 @@ class Ctx:
         return 'violation'
 
     def violation(self, kind, data, nofail=False):
-        if len(self.violations) >= 25:
-            self.violations.append(None)
+        key = json.dumps(data.get('sig'), sort_keys=True, default=repr) if isinstance(data, dict) and data.get('sig') else kind
+        self._per_sig = getattr(self, '_per_sig', {})
+        self._per_sig[key] = self._per_sig.get(key, 0) + 1
+        if self._per_sig[key] > 3 or len([v for v in self.violations if v]) >= 60:
+            self.violations.append(None)   # counted, no further replay files for this signature
             return
         os.makedirs(REPLAYS, exist_ok=True)
         path = os.path.join(REPLAYS, '%s_%s_%d_%d.json' % (self.pid, self.tier, self.seed, len(self.violations)))
@@ -432,14 +438,63 @@ def setup_jedi(cache_dir):
     return jedi
 
 
+def _worker_init():
+    # every worker gets its own parser-cache directory: parso writes its pickles non-atomically,
+    # so processes sharing one directory can read each other's half-written files
+    try:
+        import jedi
+        jedi.settings.cache_directory = os.path.join(jedi.settings.cache_directory, 'w%d' % os.getpid())
+    except Exception:
+        pass
+
+
+def _assert_no_helper_in_parent():
+    """Forked workers would share the pipes of a jedi helper process started in the parent
+    (interleaved requests -> deadlock).  Create Scripts only inside workers, or call
+    drop_parent_helper() first."""
+    me = os.getpid()
+    try:
+        kids = open('/proc/%d/task/%d/children' % (me, me)).read().split()
+    except OSError:
+        return
+    for k in kids:
+        try:
+            cmd = open('/proc/%s/cmdline' % k, 'rb').read().decode('utf8', 'replace')
+        except OSError:
+            continue
+        if 'compiled/subprocess' in cmd or 'jedi' in cmd and '__main__' in cmd:
+            drop_parent_helper()
+            return
+
+
+def drop_parent_helper():
+    """Kill the helper process(es) the in-process jedi started in this process and forget the
+    cached default environment, so that later users start their own."""
+    try:
+        from jedi.api import environment as envmod
+        env = envmod._get_cached_default_environment()
+        sub = getattr(env, '_subprocess', None)
+        if sub is not None:
+            try:
+                sub._kill()
+            except Exception:
+                pass
+        envmod._get_cached_default_environment.clear_cache()
+    except Exception:
+        pass
+    import gc
+    gc.collect()
+
+
 def pmap(fn, items, procs=NPROC, chunksize=4, timeout=1800):
     """Parallel map in forked workers (fresh jedi state per worker)."""
     import multiprocessing as mp
     items = list(items)
     if not items:
         return []
+    _assert_no_helper_in_parent()
     ctx = mp.get_context('fork')
-    with ctx.Pool(min(procs, len(items))) as pool:
+    with ctx.Pool(min(procs, len(items)), initializer=_worker_init) as pool:
         r = pool.map_async(fn, items, chunksize=chunksize)
         return r.get(timeout)
 
@@ -454,5 +509,14 @@ def exc_sig(e):
         if '/jedi/' in fn and 'third_party' not in fn:
             site = (os.path.relpath(fn, REPO) if fn.startswith(REPO) else fn, fr.name)
             frames.append(fr.name)
+    if isinstance(e, RecursionError):
+        # the innermost frame of a stack overflow is arbitrary; name the cycle instead
+        import collections
+        cnt = collections.Counter(
+            (os.path.relpath(fr.filename, REPO) if fr.filename.startswith(REPO) else fr.filename, fr.name)
+            for fr in tb[-400:] if '/jedi/' in fr.filename
+            and fr.name not in ('wrapper', '__getattr__', '<genexpr>', '<listcomp>', 'from_sets', '__init__'))
+        if cnt:
+            site = ('recursion-through', '%s:%s' % cnt.most_common(1)[0][0])
     return dict(exc=type(e).__name__, site='%s:%s' % site if site else None,
                 msg=str(e)[:80], frames=frames[-6:])
